@@ -525,7 +525,10 @@ def check_property(prop, tier, repo, seed=0, only_units=None, verbose=True, writ
                                  'obligations_checked_up_to_bound': len(r.obligations),
                                  'result': r.status, 'label': 'bounded (not counted as proved)'})
         else:
-            n_obl += len(r.obligations)
+            # obligations that fail as a listed known finding are reported separately (coverage.known_findings_hit), not counted as obligations of the proof
+            kf_keys = set(k['key'] for k in known)
+            kf_failed = [o for o in r.failed if obligation_key(r.unit, r.job['name'], o) in kf_keys]
+            n_obl += len(r.obligations) - len(kf_failed)
             n_dis += sum(1 for o in r.obligations if o['status'] == 'SUCCESS')
         if len(samples) < 12:
             for o in r.obligations:
